@@ -207,3 +207,26 @@ def run(ctx):
                    'stores an absolute value: for a file embedded at offset k > 0 every later psf_ftell / psf_fseek is off by k'), None)
     ctx.require(nfo >= 1, 'no adjustment of psf->fileoffset outside the open functions found')
 
+
+    ctx.rule('MARKER-ARM', 'in the header readers, an if / else on the file\'s leading marker (RIFF vs RIFX, .snd vs dns., the MAT4 / PAF byte-order markers) treats both byte orders alike: the two arms '
+             'assign the same handle fields (psf->...), unless one arm leaves the function; a statement that trims the embedded length or sets geometry for one byte order only makes the '
+             'other route parse past the embedded file', floor=6)
+    n_ma = 0
+    for f in sorted(prog.lib_fns(), key=lambda f: (f.file, f.line)):
+        if 'read_header' not in f.name:
+            continue
+        for x in f.walk():
+            if x['k'] != 'IfStmt' or x.get('else') is None:
+                continue
+            cn = f.unwrap(f.N[x['cond']])
+            if cn.get('k') != 'BinaryOperator' or cn.get('op') not in ('==', '!=') or f.s(f.unwrap(f.N[cn['kids'][0]])) != 'marker':
+                continue
+            th, el = f.N[x['then']], f.N[x['else']]
+            a = {lv for lv, _, _ in assigned_lvalues(f, th) if lv.startswith('psf->')}
+            b = {lv for lv, _, _ in assigned_lvalues(f, el) if lv.startswith('psf->')}
+            leaves = lambda st: any(y['k'] in ('ReturnStmt', 'GotoStmt') for y in f.walk(st))
+            n_ma += 1
+            ok = a == b or leaves(th) or leaves(el) or (el['k'] == 'IfStmt')
+            ctx.ob('MARKER-ARM', '%s@%d' % (f.name, x['l']), ok, f.loc(x), '`%s`: then-arm assigns %s, else-arm assigns %s%s' % (f.s(cn)[:40], sorted(a) or 'nothing', sorted(b) or 'nothing',
+                   '' if ok else ': one byte order gets handle state the other does not'), None)
+    ctx.require(n_ma >= 6, 'only %d marker if/else arms found' % n_ma)
